@@ -913,7 +913,12 @@ BOUNDS = {
     "history on one tag object: authenticate (+read_with_mac) against the "
     "genuine tag, then authenticate against a key-less counterfeit replaying "
     "the recorded responses (Lite with a read, Lite-S), every authenticate() "
-    "writes the fresh os.urandom output as RC; Lite-S "
+    "writes the fresh os.urandom output as RC; after a failed "
+    "authenticate(q) (with and without an earlier good session) a read "
+    "answered by a counterfeit holding the key of q and the observed "
+    "challenge, arbitrary data: not returned; read_with_mac(1,2,3,4) against "
+    "the real 4-blocks-per-command limit with one block of any response "
+    "replaced; Lite-S "
     "write_with_mac of arbitrary data to block 5 (all write counters) with the "
     "tag model verifying MAC_A/WCNT, untouched and with the write counter "
     "read replaced in transit; tag.ndef "
@@ -925,7 +930,9 @@ BOUNDS = {
     "{0,1,15,16,17,20,23,24,25,32,40} (FeliCa), protect_from in {0,3,4,255,300} x "
     "read_protect, PACK tampering on every product, read_with_mac block sets "
     "{13},{REG,0},{2,2} and Lite-S {0,1},{1,2,3},{ID,STATE} in all five "
-    "tamper modes, write_with_mac to blocks 0,5,13,REG, more protect combinations",
+    "tamper modes, write_with_mac to blocks 0,5,13,REG, more protect combinations; "
+    "read_with_mac of 1..6 blocks against the real tag limit and a lenient tag "
+    "(up to 15 blocks per command), one 16-byte block of one response replaced",
 }
 OUTSIDE = [
     "the DES / triple-DES computation itself (pyDes): replaced by an "
